@@ -249,8 +249,8 @@ class TwoElecKernel:
         return {"pos": rng, "real": 1.5, "by_prefix": {"d": (0.2, 2.0)}}
 
     def fp_shapes(self, tier):
-        sh = [s for s in self.shapes(tier) if s.get("part", [0])[0] == 0]
-        return sh if tier == "quick" else sh[::3]
+        # the 50-digit oracle is expensive for high l: sample the float code up to total l = 4
+        return [s for s in self.shapes(tier) if "part" not in s and sum(s["l"]) <= 4]
 
     def shapes(self, tier):
         out = []
@@ -320,8 +320,10 @@ class TwoElecKernel:
                 if not M.symbolic and all(k == 1 for k in K):
                     # Schwarz scale of this element: sqrt((ab|ab)(cd|cd)) with the same normalisation and coefficients
                     cc = [comps[i][idx[i]] for i in range(4)]
-                    fab = coulomb.two_electron(SF, ses[0][0], ses[1][0], ses[0][0], ses[1][0], list(scs[0]), list(scs[1]), list(scs[0]), list(scs[1]))
-                    fcd = coulomb.two_electron(SF, ses[2][0], ses[3][0], ses[2][0], ses[3][0], list(scs[2]), list(scs[3]), list(scs[2]), list(scs[3]))
+                    if "fab" not in prim:
+                        prim["fab"] = coulomb.two_electron(SF, ses[0][0], ses[1][0], ses[0][0], ses[1][0], list(scs[0]), list(scs[1]), list(scs[0]), list(scs[1]))
+                        prim["fcd"] = coulomb.two_electron(SF, ses[2][0], ses[3][0], ses[2][0], ses[3][0], list(scs[2]), list(scs[3]), list(scs[2]), list(scs[3]))
+                    fab, fcd = prim["fab"], prim["fcd"]
                     nab = (norms_of[0][cc[0]] * norms_of[1][cc[1]] * sds[0][0, ms[0]] * sds[1][0, ms[1]]) ** 2
                     ncd = (norms_of[2][cc[2]] * norms_of[3][cc[3]] * sds[2][0, ms[2]] * sds[3][0, ms[3]]) ** 2
                     sc = SF.sqrt(abs(fab(cc[0], cc[1], cc[0], cc[1]) * nab * fcd(cc[2], cc[3], cc[2], cc[3]) * ncd))
@@ -331,8 +333,9 @@ class TwoElecKernel:
 class ERIBlock:
     """ElectronRepulsionIntegral.construct_array_contraction with both kernels replaced by their
     contracts: all-s quartets go to the closed form, everything else to the general kernel; each shell's
-    centre, l, components, exponents, coefficients stay together and in the order (1,2,3,4); the class's
-    Boys function is handed over; out[m1,c1,m2,c2,m3,c3,m4,c4] = K[c1,c2,c3,c4,m1,m2,m3,m4]"""
+    centre, l, components, exponents, coefficients stay together; the pairs are passed as (1,2|3,4) or, swapped as
+    wholes, as (3,4|1,2) with the result transposed back; the class's Boys function is handed over;
+    out[m1,c1,m2,c2,m3,c3,m4,c4] = K[c1,c2,c3,c4,m1,m2,m3,m4] of the (possibly swapped) kernel call"""
 
     fp = True  # cross-check: the same contract on the unmodified float64 code at sampled inputs (bounded)
     fp_nsamp = (1, 3)
@@ -386,24 +389,37 @@ class ERIBlock:
         M.true("eri_block/kernel-choice", ("zero" in seen) == alls and ("gen" in seen) == (not alls), "closed form exactly for all-s quartets")
         boys, a = seen["zero"] if alls else seen["gen"]
         per = 3 if alls else 5
+        # the kernel may be asked for (cd|ab) instead of (ab|cd) (the pairs as wholes; equal by the symmetry proved
+        # in ERISymmetry / the specification) provided the result is transposed back
+        order = [0, 1, 2, 3] if a[0] is shells[0].coord else ([2, 3, 0, 1] if a[0] is shells[2].coord else None)
+        if order is None:
+            M.true("eri_block/pre@kernel/pair-order", False, "first kernel argument is the centre of neither shell 1 nor shell 3")
+            return
+        M.true("eri_block/pre@kernel/pair-order", order in ([0, 1, 2, 3], [2, 3, 0, 1]), "shells passed as (1,2,3,4) or (3,4,1,2): %s" % order)
+        kshells = [shells[i] for i in order]
         ok = True
-        for i, sh in enumerate(shells):
+        for i, sh in enumerate(kshells):
             g = a[per * i:per * (i + 1)]
             if alls:
                 ok &= g[0] is sh.coord and g[1] is sh.exps and g[2] is sh.coeffs
             else:
                 ok &= g[0] is sh.coord and g[1] == sh.angmom and np.array_equal(g[2], sh.angmom_components_cart) and g[3] is sh.exps and g[4] is sh.coeffs
-        M.true("eri_block/pre@kernel/args", bool(ok), "shell data forwarded per shell in the order (1,2,3,4)")
+        M.true("eri_block/pre@kernel/args", bool(ok), "each shell's centre, l, components, exponents, coefficients stay together, pairs in order %s" % order)
         bf = er.ElectronRepulsionIntegral.__dict__.get("boys_func", None)
         M.true("eri_block/pre@kernel/boys", boys is er.ElectronRepulsionIntegral.boys_func or getattr(boys, "__func__", boys) is getattr(bf, "__func__", bf),
                "the class's Boys function is handed to the kernel")
         Ls = [s.norm_cont.shape[1] for s in shells]
         want = (Mn[0], Ls[0], Mn[1], Ls[1], Mn[2], Ls[2], Mn[3], Ls[3])
-        M.true("eri_block/shape", tuple(out.shape) == want, str(out.shape))
+        M.true("eri_block/shape", tuple(out.shape) == want, "%s, expected %s" % (out.shape, want))
+        if tuple(out.shape) != want:
+            return
         cube = M.to_spec(seen["cube"])
         for idx in np.ndindex(*want):
-            m1, c1, m2, c2, m3, c3, m4, c4 = idx
-            M.eq("eri_block/out" + tag(idx), out[idx], cube[c1, c2, c3, c4, m1, m2, m3, m4])
+            mm = [idx[0], idx[2], idx[4], idx[6]]
+            cc = [idx[1], idx[3], idx[5], idx[7]]
+            kc = [cc[i] for i in order]
+            km = [mm[i] for i in order]
+            M.eq("eri_block/out" + tag(idx), out[idx], cube[tuple(kc) + tuple(km)])
         # the Boys function of the ERI class is the point-charge one (so that C03's bounded check covers it)
         pc = M.mods["gbasis.integrals.point_charge"]
         b1 = er.ElectronRepulsionIntegral.__dict__.get("boys_func")
